@@ -159,7 +159,7 @@ def gen_case(name, rng, i):
         if r < 0.25: ign = None
         elif r < 0.35: ign = set()
         else:
-            ign = {(u, v) for (u, v, w) in edges if rng.random() < (0.7 if (w is None or w < 0) else 0.3)}
+            ign = {(u, v) for (u, v, w) in edges if rng.random() < (0.5 if (w is None or w < 0) else 0.15)}
             if rng.random() < 0.2: ign.add((rng.randrange(6), rng.randrange(6)))
         return ((list(range(n)), edges), ign)
     if name == "check_flow_conservation":
